@@ -84,6 +84,9 @@ class CallMixin:
         if k == 'func':
             if name == '__name__':
                 return VC(base.t.name)
+            if getattr(base.t, 'builtin', None) in ('str', 'bytes', 'bytearray', 'list', 'dict', 'int') and not name.startswith('__'):
+                # an unbound method of a builtin type (str.ljust, bytes.join ...): called with the receiver as first argument
+                return SV('func', FuncVal(builtin='unbound:' + name, name=f'{base.t.builtin}.{name}'))
         if k == 'ref':
             return self.ref_attr(base, name, node)
         if k == 'super':
